@@ -1864,9 +1864,13 @@ class AstEval:
         kwargs = {}
         for kw_arg in arg.keywords:
             if kw_arg.arg is None:
-                kwargs.update(await self.aeval(kw_arg.value))
+                new_kwargs = dict(await self.aeval(kw_arg.value))
             else:
-                kwargs[kw_arg.arg] = await self.aeval(kw_arg.value)
+                new_kwargs = {kw_arg.arg: await self.aeval(kw_arg.value)}
+            for key in new_kwargs:
+                if key in kwargs:
+                    raise TypeError(f"got multiple values for keyword argument '{key}'")
+            kwargs.update(new_kwargs)
         #
         # try to deduce function name, although this only works in simple cases
         #
